@@ -20,13 +20,13 @@ PROPERTY-THEOREMS:
   refuses_bad_separators  refuses_fragment_length_mismatch  errors_are_validation
   accepted_separators_sorted  seps_pattern_roundtrip
 
--- FULL (not proved here): `schema_roundtrip : Inv r → r.units = sBohr →
+-- FULL (not proved in THIS file): `schema_roundtrip : Inv r → r.units = sBohr →
 --   fromSchema env (toSchema formula r v) = ok { r with name := some (r.name.getD (formula r.elem)), iutau := none }`
---   for v ∈ {1, 2}.  What is proved of it: `seps_pattern_roundtrip` (the fragment pattern written by
+--   for v ∈ {1, 2}.  What is proved of it here: `seps_pattern_roundtrip` (the fragment pattern written by
 --   `toSchema` is accepted by `contiguize` and gives back separators that cut identically) and
---   `from_schema_inv`; the remaining step (composing with `from_arrays_idempotent` for an input that
---   differs from `asInput` in `name`, `iutau` and canonicalised separators) is checked differentially
---   (Molecule(**mol.dict()) and re-validation in harness/c04.py).
+--   `from_schema_inv`.  The composition is proved in `Props/C04Schema.lean` (`schema_roundtrip`, for a record in
+--   either unit, with its three necessary extra hypotheses stated; `toSchemaU_bohr` ties `toSchemaU` to `toSchema`),
+--   and the correspondence runs the round trip on every accepted record (harness/c04.py, third stream).
 -/
 namespace QcelVerif.FromArrays
 open QcelVerif.ChgMult (vfc Rules fullSpec)
